@@ -48,9 +48,9 @@ Proof. exact permitted_subscribe. Qed.
 Theorem C10_any_unsubscribe : forall q c s, copen (conns s q) = true ->
   on_unsubscribe q c s = Ok (unsub q c s) /\ sameclosing s (unsub q c s).
 Proof. exact any_unsubscribe. Qed.
-Theorem C10_permitted_publish : forall q me c d s, Good store async_store s ->
+Theorem C10_permitted_publish : forall q me c d s, Good (srow store) async_store s ->
   ak (conns s q) = Some me -> In c (pubchans (conns s q)) -> copen (conns s q) = true ->
-  exists s', on_publish q me c d s = Ok s' /\ sameclosing s s' /\ Good store async_store s'.
+  exists s', on_publish q me c d s = Ok s' /\ sameclosing s s' /\ Good (srow store) async_store s'.
 Proof. exact (permitted_publish store async_store). Qed.
 
 (* ---- over whole histories ---- *)
@@ -82,7 +82,7 @@ Variable bname : bytes. Variable store : ident -> lookup.
      well-formed and permitted when it arrives (so q never hangs up, is never reported lost, never stalls). *)
 
 (* one read of pipelined, permitted requests: all accepted, the connection stays healthy, the clock is not started *)
-Theorem C10_permitted_data : forall q s cur chunk, Good store false s -> healthy s q -> agrees s q cur ->
+Theorem C10_permitted_data : forall q s cur chunk, Good (srow store) false s -> healthy s q -> agrees s q cur ->
   wb_chunk store q s cur chunk ->
   healthy (do_data store false q chunk s) q /\
   timer (conns (do_data store false q chunk s) q) = timer (conns s q).
